@@ -11,7 +11,7 @@ use std::panic::AssertUnwindSafe;
 use tevec::export::ndarray::{s, Array1, ArrayView1};
 use tevec::prelude::{
     CollectTrustedToVec, MapBasic, MapValidBasic, MapValidFinal, MapValidVec, TIter, TResult,
-    ToTrustIter, TrustedLen, UninitVec, Vec1, Vec1Collect, Vec1Create, Vec1View, WinsorizeMethod,
+    ToTrustIter, TrustedLen, TryCollectTrustedToVec, UninitVec, Vec1, Vec1Collect, Vec1Create, Vec1View, WinsorizeMethod,
     WriteTrustIter,
 };
 use vh::*;
@@ -405,6 +405,26 @@ fn observe_xd<'a, T: Obs>(mk: &dyn Fn() -> BD<'a, T>, script: &[Ins], mask: u8) 
 }
 
 /// contract check by plain iteration on fresh copies: hint == count before any consumption
+/// (YA) TrustedLen::is_empty() and TrustedLen::len() at every point of `steps` calls of next(), with the items
+fn observe_empty<'a, T: Obs>(mk: &dyn Fn() -> BT<'a, T>, steps: usize, mask: u8) -> Vec<Cell> {
+    finish(guarded(AssertUnwindSafe(|| {
+        let mut out = vec![];
+        let mut main = mk();
+        for j in 0..=steps {
+            out.push(Cell::Int(TrustedLen::is_empty(&main) as i128));
+            out.push(Cell::Int(TrustedLen::len(&main) as i128));
+            if j < steps {
+                match main.next() {
+                    Some(x) => x.put(mask, &mut out),
+                    None => out.push(Cell::Null),
+                }
+            }
+        }
+        out.push(Cell::Sep);
+        out
+    })))
+}
+
 fn contract_ok<'a, T>(mk: &dyn Fn() -> BI<'a, T>) -> bool {
     let mut it = mk();
     let h = it.size_hint();
@@ -1308,6 +1328,105 @@ fn main() {
             em.case("exact", &format!("{} script=x {}", tags, has_nth_tag(&sc)), &format!("pipeline src={:?} xs={:?} stages={:?}; script {:?}", src, xs, stages, sc),
                 || format!("(obsx 0 {} (build {} {}))", cins(&sc), coq_src(&src, &xs), coq_list(&stages, coq_stage)),
                 || observe_xf(&|| fwd(build(&src, &stages, &xs)), &sc, 0));
+        }
+    }
+
+    // =========================================================================================
+    // M. (YA audit) is_empty / len along a consumption; MapBasic::abs; the partitions against the model that has the
+    //    real Filter / FilterMap nodes (Model/IterAudit.v); try_collect_trusted_to_vec of vcut (Err items)
+    // =========================================================================================
+    for len in 0..=3usize {
+        let xs = series(len, 0b0100);
+        let steps = len + 2;
+        for n in nband(len) {
+            let tags = format!("fn=is_empty_vshift len={} n={}{}", len, nrel(n, len), nt(len));
+            em.case("exact", &tags, &format!("is_empty / len along vshift(n={}, None) on {:?}", n, xs),
+                || format!("(obs_e 0 {} (vshift {} None (IList {})))", coq_nat(steps), cz(n as i64), cl(&xs)),
+                || observe_empty(&|| xs.titer().vshift(n, None), steps, 0));
+        }
+        for &(kf, kb) in &[(0usize, 0usize), (1, 1)] {
+            if kf + kb > len { continue; }
+            let src = format!("(pre {} {} {})", coq_nat(kf), coq_nat(kb), cl(&xs));
+            em.case("exact", &format!("fn=is_empty_titer len={} pre={}{}{}", len, kf, kb, nt(len)),
+                &format!("is_empty / len along titer of {:?} pre {} {}", xs, kf, kb),
+                || format!("(obs_e_ok 0 {} {})", coq_nat(steps), src),
+                || observe_empty(&|| { let b: BT<f64> = Box::new(pre_iter!(xs, kf, kb)); b }, steps, 0));
+            em.case("exact", &format!("fn=abs len={} pre={}{}{}", len, kf, kb, nt(len)),
+                &format!("MapBasic::abs on {:?} (negated) pre {} {}", xs, kf, kb),
+                || format!("(obs_abs {} (IMap (fun v => match v with VZ z => VZ (- z) | _ => v end) {}))", coq_nat(steps), src),
+                || observe_fwd(&|| fwd(MapBasic::abs(pre_iter!(xs, kf, kb).map(|v: f64| -v))), steps, 0));
+        }
+        for kth in 0..=len + 1 {
+            em.case("exact", &format!("fn=is_empty_vpartition len={} kth={}{}", len, kth, nt(len)),
+                &format!("is_empty / len along vpartition(kth={}, false, false) on {:?}", kth, xs),
+                || format!("(obs_e_ok 2 {} (vpartition {} false {}))", coq_nat(kth + 2), coq_nat(kth), cl(&xs)),
+                || observe_empty(&|| xs.vpartition(kth, false, false), kth + 2, 2));
+        }
+    }
+    for len in 0..=maxlen {
+        let all = if len == 0 { 0 } else { (1u32 << len) - 1 };
+        let mut masks = vec![0u32, 0b010101 & all, all, 1 & all, all & !1];
+        masks.sort();
+        masks.dedup();
+        for mask in masks {
+            let xs: Vec<f64> = series(len, mask).iter().map(|x| if x.is_nan() { *x } else { ((*x as i64 * 7) % 5) as f64 }).collect();
+            let nvalid = xs.iter().filter(|x| !x.is_nan()).count();
+            for kth in 0..=len + 2 {
+                for sort in [false, true] {
+                    let steps = kth + 2;
+                    let cls = if nvalid == kth + 1 { "n_eq" } else if nvalid < kth + 1 { "n_lt" } else { "n_gt" };
+                    let tags = |f: &str| format!("fn={} len={} kth={} sort={} class={} nulls={}{}", f, len, kth, sort, cls, mask_name(len, mask), nt(len));
+                    em.case("exact", &tags("vpartition_f"), &format!("vpartition(kth={}, sort={}, rev=false) on {:?} [filter model]", kth, sort, xs),
+                        || format!("(observe_f 2 {} (Tevec.Model.IterAudit.vpartition_f {} {} {}))", coq_nat(steps), coq_nat(kth), coq_bool(sort), cl(&xs)),
+                        || observe_fwd(&|| fwd(xs.vpartition(kth, sort, false)), steps, 2));
+                    em.case("exact", &tags("varg_partition_f"), &format!("varg_partition(kth={}, sort={}, rev=false) on {:?} [filter model]", kth, sort, xs),
+                        || format!("(observe_f 2 {} (Tevec.Model.IterAudit.varg_partition_f {} {} {}))", coq_nat(steps), coq_nat(kth), coq_bool(sort), cl(&xs)),
+                        || observe_fwd(&|| fwd(xs.varg_partition(kth, sort, false)), steps, 2));
+                }
+            }
+        }
+    }
+    {
+        let allbins = [2.0, 4.0, 6.0];
+        let alllabels = [10.0, 20.0, 30.0, 40.0];
+        let data = [3.0, 5.0, f64::NAN, 1.0, 7.0, 4.0];
+        for len in [0usize, 1, 2, 3, 4, 6] {
+            let xs: Vec<f64> = data[..len].to_vec();
+            for nb in 0..=3usize {
+                for nl in 0..=4usize {
+                    for right in [false, true] {
+                        for add in [false, true] {
+                            let bins: Vec<f64> = allbins[..nb].to_vec();
+                            let labels: Vec<f64> = alllabels[..nl].to_vec();
+                            let okc = if add { nl == nb + 1 } else { nl + 1 == nb };
+                            let tags = format!("fn=vcut_try_collect len={} bins={} labels={} right={} add_bounds={} sizes={}{}", len, nb, nl, right, add, if okc { "ok" } else { "err" }, nt(len));
+                            em.case("exact", &tags,
+                                &format!("vcut(bins={:?}, labels={:?}, right={}, add_bounds={}) on {:?} .try_collect_trusted_to_vec()", bins, labels, right, add, xs),
+                                || format!("(try_cells (vcut (-(2^1100)) (2^1100) {} {} {} {} (IList {})))",
+                                    coq_list(&bins, |b| cz(*b as i64)), cl(&labels), coq_bool(right), coq_bool(add), cl(&xs)),
+                                || finish(guarded(AssertUnwindSafe(|| {
+                                    match xs.titer().vcut::<_, _, f64>(&bins, &labels, right, add) {
+                                        Err(_) => vec![Cell::Err],
+                                        Ok(it) => {
+                                            // the contract first (plain iteration of a fresh copy), then the raw collector
+                                            if !contract_ok(&|| fwd(xs.titer().vcut::<_, _, f64>(&bins, &labels, right, add).unwrap())) {
+                                                return vec![Cell::Uninit];
+                                            }
+                                            match it.try_collect_trusted_to_vec() {
+                                                Err(_) => vec![Cell::Err],
+                                                Ok(v) => {
+                                                    let mut out = vec![Cell::Int(v.len() as i128)];
+                                                    for x in &v { x.put(0, &mut out) }
+                                                    out
+                                                }
+                                            }
+                                        }
+                                    }
+                                }))));
+                        }
+                    }
+                }
+            }
         }
     }
 
